@@ -120,13 +120,21 @@ func (s *Service) Handle(ctx context.Context, conn net.Conn) error {
 		return errors.New("Can't set ReadDeadline on connection")
 	}
 
+	// lines and messages of this connection only; the goroutine below ends
+	// with the connection
 	rcvLine := make(chan string)
+	rcvMsg := make(chan Message)
+
+	done := make(chan struct{})
+	defer close(done)
 
 	// Wait for a message and send it into the eventbus
 	go func() {
 		for {
 			select {
-			case message := <-s.receiveChan:
+			case <-done:
+				return
+			case message := <-rcvMsg:
 				header := []event.Option{}
 
 				for key, values := range message.Header {
@@ -166,6 +174,9 @@ func (s *Service) Handle(ctx context.Context, conn net.Conn) error {
 
 	//Create new smtp server connection
 	c := s.srv.newConn(conn, rcvLine)
+	c.deliver = func(msg Message) {
+		rcvMsg <- msg
+	}
 	// Start server loop
 	c.serve()
 	return nil
